@@ -677,6 +677,15 @@ func (t *timeline) run() {
 			t.stop = true
 			break
 		}
+		if res.Panic != "" && strings.HasPrefix(res.PanicLoc, "sql.") {
+			// the parser itself panicked: the statement does not parse, which puts
+			// it outside C18 ("any statement that parses"); parser totality is
+			// C09, a pure-function property this technique does not claim.
+			// Counted and treated as a refused statement.
+			w.count("parser_panic_out_of_scope")
+			res.Err = fmt.Errorf("unable to parse sql: parser panicked: %s", res.Panic)
+			res.Panic = ""
+		}
 		// ---- outcome ----
 		if res.Panic != "" {
 			t.violate("O-live", fmt.Sprintf("statement %d (%s) panicked: %s (in %s)", i, s.Kind, res.Panic, res.PanicLoc),
